@@ -5,17 +5,26 @@ from .common import Acc, intercept, result, search_result
 
 ID = "C08"
 LEAN_MODULES = ["MjwVerif.Props.C08"]
-GEN_FUNCS = ["forward._next_position", "forward._next_velocity", "forward._next_activation", "forward._next_time_builder___next_time", "forward._euler_damp_qfrc",
+GEN_FUNCS = ["derivative.deriv_rne_body2jnt_sparse", "forward._next_position", "forward._next_velocity", "forward._next_activation", "forward._next_time_builder___next_time", "forward._euler_damp_qfrc",
              "forward._rk_accumulate_velocity_acceleration", "forward._rk_accumulate_activation_velocity", "forward._compute_damping_deriv", "support.next_act", "math.quat_integrate"]
-KERNELS = ["forward._next_position", "forward._next_velocity", "forward._next_activation", "forward._next_time_builder___next_time", "forward._euler_damp_qfrc",
+KERNELS = ["derivative.deriv_rne_body2jnt_sparse", "forward._next_position", "forward._next_velocity", "forward._next_activation", "forward._next_time_builder___next_time", "forward._euler_damp_qfrc",
            "forward._rk_accumulate_velocity_acceleration", "forward._rk_accumulate_activation_velocity"]
 LEVEL_TEXT = ("Theorems about the integration kernels regenerated from forward.py on every run: exact write lists of _next_velocity / _next_position (per joint type; equal to a transcription of "
               "mj_integratePos under the normalisation guards; written quaternions are unit) / _next_time / the two RK accumulate kernels / _euler_damp_qfrc + _compute_damping_deriv (diagonal "
-              "M_ii + dt*D_i system); for an ABSTRACT forward map the transcribed host loop of rungekutta4 equals classical RK4 with tableau A=[1/2,1/2,1], B=[1/6,1/3,1/3,1/6] under two explicit "
-              "hypotheses (stage activations advance by plain Euler; stage time = t + c_i h) — which the code violates for FILTEREXACT/DCMOTOR activations and for time (machine-checked "
-              "witnesses; known findings). Real step() vs mujoco.mj_step in lock step for all four integrators.")
-LEVEL_NOTE = ("C08_partial: implicit/implicitfast are covered at the _advance level; the forward pass inside the stages is C01-C06. Trusted: Lean kernel + Mathlib, tier-B translator (interception), "
-              "Spec/Integrate.lean as a transcription of MuJoCo's documented integrators.")
+              "M_ii + dt*D_i system); the RK4 stage activation written by _rk_perturb_state's launch (_next_velocity on act_t0, act_dot, scale) equals mj_RungeKutta's X0.act + h*a*F.actdot for "
+              "EVERY dynamics type, without hypothesis (rk_stage_activation_eq), and the launch list of _rk_perturb_state and the writers of d.act in the RK4 branch are fixed by kernel decide over the "
+              "regenerated host events of step() (rk_perturb_launches, rk4_act_writers: re-introducing _next_activation for the stages breaks the proofs); for an ABSTRACT forward map the "
+              "transcribed host loop of rungekutta4 equals classical RK4 with tableau A=[1/2,1/2,1], B=[1/6,1/3,1/3,1/6] under ONE remaining departure hypothesis (stage time = t + c_i h: the code "
+              "never advances d.time between stages; machine-checked witness W4; only delayed actuators/sensors read it). deriv_rne_body2jnt_sparse with flg_subtract=False ADDS dt*d(qfrc_bias)/d(qvel) "
+              "(rne_vel_body2jnt_adds) and is launched once, in the full-implicit branch, on d.qLU (implicit_rne_launch). Real step() vs mujoco.mj_step in lock step for all four integrators. "
+              "Defects found by this check and repaired in /repo: 'fix: RK4 intermediate stages advanced activations with the exact filter/motor integrators' (a57be8a; hypothesis hact and "
+              "witnesses W2/W3 removed, statement now proved), 'fix: implicit integrator subtracted the RNE velocity derivative instead of adding it' (28a04d7), 'fix: plane-capsule contact frame "
+              "ignored the capsule axis when it is within 30 degrees of the plane normal' (062cee5); their triggers stay as regression cases and no finding is expected.")
+LEVEL_NOTE = ("C08_partial: implicit/implicitfast are covered at the _advance level plus the sign of the RNE term at kernel level; the VALUE of flg_subtract at implicit()'s call of deriv_rne_vel and the "
+              "scalar scale / argument positions of the RK stage launches are not visible in Gen/Host.lean (the host extractor records kernels, conditions and array fields only): the lock-step "
+              "oracle (and C27's comparison with finite differences) decides those. The forward pass inside the stages is C01-C06; the final activation update of _advance is C03's next_act. "
+              "Trusted: Lean kernel + Mathlib, tier-B translator (interception), Spec/Integrate.lean as a transcription of MuJoCo's documented integrators and of the host functions "
+              "_advance / rungekutta4 / _rk_perturb_state (the latter's launch list is machine-checked against Gen/Host.lean).")
 ASSUMPTIONS = ["tolerance 2e-4*(1+|x|) per step on qpos/qvel/act; time and warmstart compared too", "models are forwarded (mj_forward) before put_data so that cvel is consistent (see C12-stale-cvel)"]
 
 XML = """
@@ -94,7 +103,7 @@ def _run(ctx, ncases, nsteps, rec):
             break
         if bad:
           if integ == "RK4" and dyn == "filterexact":
-            trig = "rk4-filterexact"
+            trig = "rk4-filterexact"   # label of the regression trigger of fix a57be8a (stage activations); no finding is expected any more
           else:
             trig = f"vs-mujoco-{integ}"
           acc.find(f"{integ} (dyntype {dyn}{cone}): {bad[0]} differs from mj_step at step {s} by {bad[1]:.3g}", "forward.rungekutta4" if integ == "RK4" else "forward." + integ.lower(), trig,
